@@ -51,6 +51,7 @@ type loopState struct {
 	variant  Term
 	hasVar   bool
 	arrivals int // unrolled loops: how often the head has been reached on this path
+	atHead   map[string]Val // values of athead(e) expressions of step clauses, taken at the loop head
 }
 
 type Frame struct {
